@@ -430,6 +430,9 @@ def run(ctx) -> None:
     ctx.coverage["part_H_process_history_runs"] = sum(len(r) for r in resH)
     from . import c18_cpu
     ctx.coverage["part_G_runtime_step_splits"] = c18_cpu.run_step_split(ctx, "C07/rust-runtime/step-split")
+    # part P: a host-backed port (python_ranges + host_read) whose value changes between reads, under every cut of step(N)
+    from . import c07_host
+    ctx.coverage["part_P_host_port_step_cuts"] = c07_host.run(ctx)
     K = 12 if ctx.thorough else 8
     resD = pmap(_shard_d, [(lp, st_a, K if len(lp) > 1 else max(K, 12)) for lp in c06.LOOPS])
     nE, vbE = _part_e(st_a)
@@ -501,6 +504,9 @@ def replay(ctx, w) -> Optional[str]:
         for sig, (cnt, wl) in r["vb"].d.items():
             return wl[0][0]
         return None
+    if w.get("host"):
+        from . import c07_host
+        return c07_host.replay(w)
     if w.get("cpu"):
         from . import c18_cpu
         return c18_cpu.replay(w)
